@@ -1183,6 +1183,19 @@ func (c *Canonicalizer) writeSelect(w *strings.Builder, i *ssa.Select, context s
 		}
 		w.WriteString(")")
 	}
+
+	// The index the Select yields at run time is the case's ORIGINAL position, and the code
+	// that dispatches on it compares against those positions (they are not renumbered above).
+	// The positions therefore have to be part of the canonical form: without them, exchanging
+	// the channels of two cases - which exchanges which body runs for which channel - leaves
+	// the IR unchanged.  They go on a line of their own; the line above stays the same
+	// whatever the order of the cases in the source.
+	w.WriteString("\n  ; case-order")
+	for _, state := range states {
+		if state.origIndex >= 0 {
+			w.WriteString(fmt.Sprintf(" %d", state.origIndex))
+		}
+	}
 }
 
 func (c *Canonicalizer) writePhi(w *strings.Builder, i *ssa.Phi, instr ssa.Instruction) {
